@@ -215,6 +215,7 @@ func (n *Node) Restart() error {
 func (n *Node) Wipe() error {
 	n.gate.Lock()
 	defer n.gate.Unlock()
+	n.c.Log(Event{Kind: "wipe", Node: n.Name})
 	n.stop()
 	n.mu.Lock()
 	defer n.mu.Unlock()
@@ -500,7 +501,7 @@ func (p *provider) SendSnapshot(ctx context.Context, follower string, namespace 
 		return nil, status.Error(14, "harness: peer unreachable")
 	}
 	link := c.Link(p.n.Name, follower)
-	s := &snapStream{clientCtx: ctx, chunks: make(chan *proto.SnapshotChunk, 64), resp: make(chan *proto.SnapshotResponse, 1), done: make(chan struct{}),
+	s := &snapStream{cluster: c, follower: follower, term: term, clientCtx: ctx, chunks: make(chan *proto.SnapshotChunk, 64), resp: make(chan *proto.SnapshotResponse, 1), done: make(chan struct{}),
 		link: link, linkGen: link.gen.Load()}
 	s.srvCtx, s.srvCancel = context.WithCancel(context.Background())
 	c.Log(Event{Kind: "snapshot-open", Node: follower, Peer: p.n.Name, Term: term})
